@@ -323,6 +323,13 @@ where
         Err(Error::InvalidMvd)
     }
 
+    /// Verification hook: `(bits consumed from the internal buffer, bytes held
+    /// in the internal buffer)`. Read-only.
+    #[cfg(feature = "verif")]
+    pub fn verif_position(&self) -> (usize, usize) {
+        (self.bits_read, self.buffer.len())
+    }
+
     /// Yield a checkpoint value that can be used to abort a complex read
     /// operation.
     ///
